@@ -216,7 +216,7 @@ def gen_cases(ctx, tier):
                ([(WAIT, 0)], [(TRY, 0)], [(POST, 0)]), ([(WAIT, 0), (POST, 0)], [(WAIT, 0)], [(POST, 0)]),
                ([(TRY, 0), (WAIT, 0)], [(POST, 0)], [(WAIT, 0), (POST, 0)])]
     ntri = 0
-    for _ in range(1500 if quick else 30000):
+    for _ in range(1500 if quick else 80000):
         tr3 = rng.choice(triples)
         sch = [0] * (1 + SLOW_WAIT) + [1] * (1 + SLOW_WAIT) + [2] * (2 + 2 * POST_WAKE)
         rng.shuffle(sch)
@@ -232,7 +232,7 @@ def gen_cases(ctx, tier):
                 cases.append(core.fmt_case([400, 0], [[(WAIT, 0)], [(POST, 0)], th], sched))
                 ncov += 1
     # (2) seeded random programs x schedules (three styles)
-    nrand = 4000 if quick else 60000
+    nrand = 4000 if quick else 150000
     for i in range(nrand):
         nt = rng.choice([2, 2, 3, 3, 4, 5])
         init = rng.choice([0, 0, 0, 1, 1, 2, 3])
